@@ -23,6 +23,7 @@ type vPwWorld struct {
 	prim   *vGate
 	rawP   *sql.DB // the harness's own handles on the two sqlite files (projection, time travel, tampering)
 	rawC   *sql.DB
+	mkAuth func() // a fresh authenticator object over the same stores: what a restart (or a second instance) is
 }
 
 var vPwUsers = []string{"alice", "bob"}
@@ -47,9 +48,12 @@ func newPwWorld() *vPwWorld {
 		g.srv = append(g.srv, f)
 		urls = append(urls, f.url())
 	}
-	auth, err := ldap.New(urls, []string{"uid=%s,ou=people,dc=example,dc=com"}, 2, pool, w.st, w.st.logger)
-	vMust(err)
-	w.st.passwordChecker = auth
+	g.mkAuth = func() {
+		auth, err := ldap.New(urls, []string{"uid=%s,ou=people,dc=example,dc=com"}, 2, pool, w.st, w.st.logger)
+		vMust(err)
+		w.st.passwordChecker = auth
+	}
+	g.mkAuth()
 	w.st.Config.Ldap.LDAPTargetURLs = strings.Join(urls, ",")
 	return g
 }
@@ -148,6 +152,10 @@ func (g *vPwWorld) step(a map[string]interface{}) map[string]interface{} {
 		out["accepted"] = r.Status == 200 && r.Cookie(authCookieName) != nil
 		out["panic"] = r.Panic != ""
 		out["status"] = r.Status
+	case "restart":
+		// the daemon restarts (or another instance sharing the stores serves the next request): nothing in memory
+		// survives, what was stored does
+		g.mkAuth()
 	case "sync":
 		if err := copyDBIntoSQLite(st.db, st.cacheDB, "sqlite"); err != nil {
 			out["status"] = -1
